@@ -1,9 +1,9 @@
 #!/bin/bash
 # verify round-2 sub-agent changes in their scratch worktrees and import them as seeded/<ID>-<n+2>
 # usage: tools/import_seeds.sh <ID>
-ID=$1; W=/tmp/mut4/$ID/repo
+ID=$1; W=/tmp/mut5/$ID/repo
 for N in 1 2; do
-  O=/tmp/mut4/$ID/out/$N
+  O=/tmp/mut5/$ID/out/$N
   [ -f $O/patch.diff ] || { echo "$ID/$N missing"; continue; }
   cd $W && git checkout -q -- .
   clean=$(cd $O && PARAM_ROOT=$W PYTHONPATH=$W /venv/bin/python demo.py >/dev/null 2>&1; echo $?)
@@ -13,12 +13,12 @@ for N in 1 2; do
   git checkout -q -- .
   echo "$ID/$N demo_clean=$clean demo_patched=$pat tests=[$tests]"
   if [ "$clean" = "0" ] && [ "$pat" != "0" ] && echo "$tests" | grep -q "1185 passed"; then
-    D=/verif/seeded/$ID-$((N+6)); mkdir -p $D; cp $O/patch.diff $O/demo.py $O/NOTES.md $D/
+    D=/verif/seeded/$ID-$((N+8)); mkdir -p $D; cp $O/patch.diff $O/demo.py $O/NOTES.md $D/
     python3 - $ID $D "$tests" <<'P'
 import sys, json, subprocess
 i, d, tests = sys.argv[1:4]
 head = subprocess.run(['git','-C','/repo','log','--format=%h','-1'],capture_output=True,text=True).stdout.strip()
-json.dump({"property": i, "round": 4, "origin": "independent sub-agent given only the property text and a scratch worktree of /repo HEAD (%s, i.e. with the fix: commits)" % head,
+json.dump({"property": i, "round": 5, "origin": "independent sub-agent given only the property text and a scratch worktree of /repo HEAD (%s, i.e. with the fix: commits)" % head,
  "needs_to_manifest": "see NOTES.md (written by the sub-agent)",
  "verified": {"how": "scratch worktree: demo.py exit 0 clean; git apply patch.diff; demo.py non-zero; full test suite passes; worktree restored and removed",
   "demo_clean_exit": 0, "demo_patched_exit": "non-zero", "tests_with_patch": tests}}, open(d+'/meta.json','w'), indent=1)
